@@ -27,7 +27,12 @@ R = Registry(
         "lookups `<x>.c[key]` / `<x>.columns[key]` by a non-constant key are guarded (membership test on the same "
         "collection, try/except KeyError -> documented error, key drawn from the collection); after a class guard "
         "that raises a documented error (`if not isinstance(x, C): raise CompileError`) every attribute read on the "
-        "guarded variable is defined by a class the guard establishes."
+        "guarded variable is defined by a class the guard establishes; (R8) in the DDL compilers an attribute read on a "
+        "member of the visited column-collection constraint is defined by every named-column class the dominating "
+        "isinstance()/hasattr() outcomes leave possible (the constructor accepts column('x')), unless the constraint class "
+        "proves at attach time that its members are Columns; (R9) keys / elements of clause attributes filled from a "
+        "string-or-expression role coercion (coercions._ReturnsStringKey) reach IdentifierPreparer methods with a `str` "
+        "parameter only under a positive isinstance(x, str) outcome (or with every ClauseElement excluded)."
     ),
     not_decided="absence of AttributeError/TypeError/AssertionError on arbitrary construct combinations; the 60+ "
                 "assert statements (counted, not judged).",
@@ -1453,7 +1458,12 @@ def r8(ctx):
                 ctx.functions_analysed.add(f.key)
                 who = unparse(inline_locals(f.node, n.value))
                 pos, neg = [], []
+                probed = False
                 for atom, pol in _guards_at(ctx, f, pm, n):
+                    if pol and isinstance(atom, ast.Call) and isinstance(atom.func, ast.Name) and atom.func.id == "hasattr" \
+                            and len(atom.args) == 2 and isinstance(atom.args[1], ast.Constant) and atom.args[1].value == n.attr \
+                            and unparse(inline_locals(f.node, atom.args[0])) == who:
+                        probed = True       # hasattr(<member>, "<attr>") is the same test asked directly
                     ia = _isinstance_of(ix, f.module, f.node, atom)
                     if ia is not None and ia[0] == who:
                         alt = [c for c in ia[1] if isinstance(c, ClassInfo)]
@@ -1463,11 +1473,11 @@ def r8(ctx):
                         if all(any(ix.is_subclass(c, a) or c is a for a in alt) for alt in pos)
                         and not any(ix.is_subclass(c, a) or c is a for alt in neg for a in alt)
                         and (not column_only or c is column or ix.is_subclass(c, column))]
-                lack = [c for c in left if _member_defines(ctx, c, n.attr) is False]
+                lack = [] if probed else [c for c in left if _member_defines(ctx, c, n.attr) is False]
                 lack.sort(key=lambda c: (c.name != "ColumnClause", len(ix.mro(c)), c.key))
                 seen_attr[n.attr] = seen_attr.get(n.attr, 0) + 1
                 key = f"{f.key}:member.{n.attr}" + (f"#{seen_attr[n.attr]}" if seen_attr[n.attr] > 1 else "")
-                why = ("members proven to be Column objects: " + column_only) if column_only else \
+                why = "under hasattr()" if probed else ("members proven to be Column objects: " + column_only) if column_only else \
                     ("under " + " and ".join("isinstance(.., " + "/".join(c.name for c in alt) + ")" for alt in pos) if pos
                      else "defined by every named column expression")
                 ctx.check(not lack, key,
@@ -1650,6 +1660,7 @@ def r9(ctx):
     sinks = _str_sinks(ctx)
     ctx.require("quote" in sinks, "IdentifierPreparer.quote(ident: str) not found")
     prep = ix.cls(f"{COMP}::IdentifierPreparer")
+    clause_element = ix.cls(f"{ELEMENTS}::ClauseElement")
 
     def sink_of(f, c):
         if not (isinstance(c.func, ast.Attribute) and c.func.attr in sinks and c.args):
@@ -1679,20 +1690,21 @@ def r9(ctx):
                 pm = pm or parent_map(f.node)
                 ctx.functions_analysed.add(f.key)
                 who = unparse(inline_locals(f.node, c.args[0]))
-                ok, odd = False, []
+                ok = False
                 for atom, pol in _guards_at(ctx, f, pm, c):
                     ia = _isinstance_of(ix, f.module, f.node, atom)
                     if ia is None or ia[0] != who:
                         continue
-                    if pol and ia[1] == ["str"]:
-                        ok = True
-                    elif not (not pol and "str" in ia[1]):
-                        odd.append(unparse(atom) if pol else f"not {unparse(atom)}")
+                    strlike = [c == "str" or (isinstance(c, ClassInfo) and any("str" in k.base_exprs for k in ix.mro(c))) for c in ia[1]]
+                    if pol and all(strlike):
+                        ok = True       # str, or a str subclass such as quoted_name
+                    elif not pol and any(isinstance(c, ClassInfo) and (c is clause_element or ix.is_subclass(clause_element, c)) for c in ia[1]):
+                        ok = True       # what is left of `str | ClauseElement` when every ClauseElement is excluded
+                    # any other outcome (a narrower class excluded, an element class established, str excluded) leaves a
+                    # ClauseElement possible at the call
                 shown = f"{sk}({lab})"
                 count[shown] = count.get(shown, 0) + 1
                 key = f"{f.key}:{shown}" + (f"#{count[shown]}" if count[shown] > 1 else "")
-                if not ok and odd:
-                    ctx.error(f"{key}: `{unparse(c)}` is guarded by {odd}, a class test this rule does not understand")
                 attr, what = lab.split(":")[0], lab.split(":")[1]
                 src = sorted(dual.get(attr, []))
                 ctx.check(ok, key,
@@ -1919,3 +1931,11 @@ R.mutant("r9-pg-set-key-helper-without-the-test", PG,
                sub("    def visit_on_conflict_do_update(self, on_conflict, **kw):\n",
                    "    def _render_set_key(self, key):\n        return self.preparer.quote(key)\n\n"
                    "    def visit_on_conflict_do_update(self, on_conflict, **kw):\n")), "C22-R9")
+R.mutant("benign-r8-unique-member-probed-with-hasattr", SQLITE,
+         sub("            if isinstance(col1, schema.SchemaItem):\n", "            if hasattr(col1, \"dialect_options\"):\n"), None)
+R.mutant("benign-r9-pg-set-key-elements-excluded", PG,
+         sub(_PG_KEY, "                if isinstance(k, elements.ClauseElement):\n                    key_text = self.process(k, use_schema=False)\n"
+                      "                else:\n                    key_text = self.preparer.quote(k)\n"), None)
+R.mutant("r9-pg-set-key-only-columnclause-excluded", PG,
+         sub(_PG_KEY, "                if isinstance(k, schema.Column):\n                    key_text = self.process(k, use_schema=False)\n"
+                      "                else:\n                    key_text = self.preparer.quote(k)\n"), "C22-R9")
